@@ -159,7 +159,9 @@ class Session:
                 dead = r.verdict == "unsat"
                 if dead:
                     infeasible.append(vc.name)
-                tags = [vc.func] + [f"{vc.func}@{p}" for p in vc.path.split("/") if p.startswith("loop") and p.endswith("X")]
+                # all ways out of loop k (condition false: `loopkX`, or `break`: `loopkbrk`) form one group
+                tags = [vc.func] + [f"{vc.func}@{p[:-1] if p.endswith('X') else p[:-3]}:exit" for p in vc.path.split("/")
+                                    if p.startswith("loop") and (p.endswith("X") or p.endswith("brk"))]
                 for t in tags:
                     groups.setdefault(t, []).append(dead)
         vac = [g for g, ds in groups.items() if ds and all(ds)]
